@@ -57,6 +57,7 @@ def run(tier, seed, replay=None):
     for b, msgs in rejected:
         k = (msgs[0] if msgs else "?")[:70]
         rej_msgs[k] = rej_msgs.get(k, 0) + 1
+    n_embedded_dynamic = n_constant_bindings = 0
     for i, (d, r) in enumerate(zip(docs, results)):
         if r is None:
             v.inconc("no translation result")
@@ -71,6 +72,16 @@ def run(tier, seed, replay=None):
         live = [bi for bi, b in enumerate(d.bindings) if b.func]
         # constant bindings are embedded in the .ui (C03); they have no eval function
         states = d.make_states(n_states)
+        for b in d.bindings:
+            if not b.func:
+                dep = d.state_dependent(b, states)
+                if dep:
+                    n_embedded_dynamic += 1
+                    v.violation("state-dependent-binding-without-code", "binding %s.%s has no eval function (it is treated as a constant) but its source "
+                                "expression denotes %r in one state and %r in another" % (b.target, b.prop, dep[0], dep[1]),
+                                {"program": b.src, "qml": d.source, "ui": r.get("ui")})
+                else:
+                    n_constant_bindings += 1
         expected = {}
         plan = []
         for si, st in enumerate(states):
@@ -180,6 +191,7 @@ def run(tier, seed, replay=None):
              "results over its states and a statement block or >= 4 nodes",
         samples=samples, documents=len(work), programs=sum(len(w[1].bindings) for w in work),
         pairs_defined=n_defined, pairs_undefined_skipped=n_undefined, programs_rejected_by_qmluic=len(rejected),
+        bindings_without_code_state_independent=n_constant_bindings,
         rejection_reasons=rej_msgs, sanitizer_or_abnormal_ends=san_reports, shape_features_hit=len(feats), shape_features=feats,
         floor=100 if tier == "quick" else 1000,
     )
